@@ -35,6 +35,15 @@ the sequence by one frame per chopper *handed in* and its last frame is judged a
 those choppers.  One ``chop`` call is compared with sequences of ``chop`` /
 ``propagate_to`` calls over the same choppers.
 
+Sequences whose propagate / chop / lookup distances are NOT monotonic (to the detector and back to a
+monitor, a look between two choppers, a distance that exists already): ``FrameSequence.propagate_to`` must
+append the last frame propagated to the distance, whatever the order of the distances, and ``sequence[d]``
+yields the neutrons behind the choppers at <= d.  Aliasing: every frame the trace has seen carries a snapshot
+of its bytes; the workload writes in place into results, arguments and reused variables (``probe_alias``,
+scan loops with ``pos += step``) and frames obtained earlier must still report what they reported when they
+were returned (``Monitors.recheck``); the pass-through of the data classes that the unchanged tree shows
+(distance Variable stored as given, wavelength Variable passed on by propagate_to) is counted, not judged.
+
 Pulse rectangles without extent (monochromatic, instantaneous, a single point; exactly
 and up to a few ulp): the neutrons occupy a segment (a point) of the plane and the
 frames consist of segments (points).  Membership is then judged along that line
@@ -43,6 +52,8 @@ of every reported segment; neutrons in the band stay undecided.
 """
 
 from __future__ import annotations
+
+import os
 
 import numpy as np
 import scipp as sc
@@ -77,6 +88,22 @@ RULE = (
     '== time_max, both, and the same up to 1..8 ulp (6 classes, 2 per slot alternating over the shards; 8 % of '
     'the random cascades), first chopper at 0 m, windows incl. exactly touching and zero-width ones (open == '
     'close; 3 % of all windows). '
+    'Then 1 cascade with NON-MONOTONIC distances of FrameSequence.propagate_to / chop / sequence[distance] calls: 2-3 '
+    'choppers, to the detector and back to a monitor in front of it (against one step), continuing from there '
+    '(forward again to an existing / a new distance, one more chopper downstream), to a position between two '
+    'choppers that were both applied, to a distance at which the sequence holds a frame already (an earlier '
+    'chopper, the last one, the source), each followed by lookups on both sides of every inserted frame and by '
+    'sequence[-1]. Then 1 cascade on result / argument ALIASING and IN-PLACE MODIFICATION: after every '
+    'from_source_pulse / Frame.propagate_to / Frame.chop / FrameSequence.chop / FrameSequence.propagate_to / '
+    'sequence[distance] call (windows of all classes, one containing a whole subframe) every array of the result, '
+    'of the arguments and of the frame the call started from is written in place (and restored), one at a time, '
+    'looking which other arrays of all frames obtained so far change with it; the arrays the result owns are left '
+    'overwritten while the call is repeated on the very same arguments; scans with one position variable advanced '
+    'in place (pos += step: float m, int m, mm) through sequence[pos], Frame / FrameSequence.propagate_to(pos); a '
+    'chopper moved and re-timed in place and applied again; pulse arguments changed in place; ranges of N '
+    'distances with N = 1, 2, number of vertices of the subframe -1 / +0 / +1; in 4 shards the first call '
+    '(from_source_pulse / propagate_times / Frame.chop) in a fresh interpreter that imported only scipp, numpy and '
+    'the module, compared bit for bit with the same calls in the worker. '
     'Every returned frame is judged with ~2000-4000 simulated neutrons; distinct = distinct (number of '
     'choppers, window classes, program shape, units, equal / near / ulp / source / behind / backward flags) '
     'signatures (+ pulse class); a cascade without choppers and without propagation is trivial'
@@ -104,9 +131,26 @@ ASSUMPTIONS = [
     'did not record and that is not a list / tuple is counted and not judged',
     'mutable objects: fields are reassigned (chopper.distance = ..., chopper.time_open = ..., '
     'sequence.frames = ..., frame.distance / frame.subframes = equivalent values) and window arrays are '
-    'written in place; a distance Variable that a Frame shares with the Chopper or with the propagate_to '
-    'argument (copy=False) is never written in place (aliasing of scipp Variables is not part of the '
-    'property)',
+    'written in place',
+    'aliasing: a frame that was returned keeps reporting, bit for bit, what it reported when it was returned, '
+    'whatever the caller later writes in place into arguments, into other results or into a variable it reuses; '
+    'NOT judged (observed on the unchanged tree, counted as observed:shared_memory:*, reported to the '
+    'maintainers): the pass-through of the data classes -- Frame.propagate_to / FrameSequence.propagate_to store '
+    'the distance Variable they are given, a propagated frame passes the wavelength Variable of each subframe of '
+    'the frame it started from on (only times are sheared), the frame chop returns carries the distance Variable '
+    'of the chopper when no unit conversion is needed. After such a write by the workload only the polygons '
+    '(time, wavelength) of the earlier frames are looked at again. Everything else that shares memory with a '
+    'result is judged: polygons of a chopped frame with anything, times of a propagated frame with anything, the '
+    'distance of a frame that sequence[distance] returns with the lookup argument',
+    'sequence[distance] in a sequence whose frames are not sorted by distance is judged when every CHOPPER frame '
+    'lies downstream of all frames the sequence held when the chopper was applied (propagated frames in any '
+    'order): the neutrons at d went through the choppers at <= d. A chopper placed upstream of a position the '
+    'beam was already propagated to (e.g. frames at 0, 6, 30, 8, 10 m with choppers at 6 and 10 m) is counted '
+    'and not judged, and not generated; FrameSequence.propagate_to distances of sequences that are looked up are '
+    'given in metres (the lookup compares frame distances with the requested one in m: other units make it '
+    'raise UnitError; units are not part of the property)',
+    'fresh interpreter: the subprocess runs sys.executable with the sys.path of the worker; a subprocess that '
+    'cannot import scipp / numpy is inconclusive, never a violation',
 ]
 TECHNIQUE = ('runtime monitors (sys.monitoring) with per-frame ghost state (pulse + observed chopper history); '
              'independent neutron transmission simulator + long-double point-in-polygon; shear / clip / bounds '
@@ -118,7 +162,9 @@ LEVEL_TEXT = ('exploration: every frame returned by chop / propagate_to / FrameS
               'frame are compared with the observed vertices and must not raise; FrameSequence.chop must apply '
               'exactly the choppers handed in, whatever kind of iterable carries them, and give the frames of '
               'any split into several chop / propagate_to calls; pulses without extent are judged along the '
-              'line their neutrons occupy. Sampling of a continuous '
+              'line their neutrons occupy; sequences with non-monotonic propagate / chop / lookup distances are '
+              'judged at the frame each call returns; frames obtained earlier must not change when the caller '
+              'writes in place into arguments or later results (write-and-check on every array). Sampling of a continuous '
               'input space: held on the decided neutrons / frames reported, not a proof.')
 LEVEL_NOTE = ('trusted: numpy long double, the independent SI table, scipp containers, scipp.constants h and '
               'm_n; the polygons are read from the frames the code returns')
@@ -149,7 +195,14 @@ FORCED = ['window:' + c for c in WINDOW_CLASSES] + ['window:zero_width'] + [
     'iterable:empty', 'program:chop_then_chop', 'program:chop_propagate_chop',
     'degenerate_pulse:chopper_at_source_distance', 'degenerate_pulse:window:touches_vertex',
     'degenerate_pulse:window:zero_width', 'degenerate_pulse:window:cuts_both',
-] + ['pulse:' + c for c in PULSE_CLASSES]
+] + ['pulse:' + c for c in PULSE_CLASSES] + [
+    'sequence:backward_second_step', 'sequence:lookup_after_backward_step', 'sequence:continue_after_backward_step',
+    'sequence:chop_after_backward_step', 'sequence:propagate_between_choppers',
+    'sequence:propagate_to_existing_distance',
+    'alias:frame_calls_probed', 'alias:sequence_calls_probed', 'alias:bounds_results_written',
+    'inplace:lookup_distance_advanced', 'inplace:propagate_distance_advanced', 'inplace:chopper_fields_advanced',
+    'inplace:pulse_arguments_changed', 'size:distance_range_as_long_as_the_vertex_axis', 'fresh_interpreter',
+]
 
 
 # ------------------------------------------------------------- conversions ---
@@ -198,13 +251,28 @@ def _describe(pulse, hist, dist):
     }
 
 
+def _vbytes(v):
+    return (str(v.unit), str(v.dtype), tuple(v.shape), np.ascontiguousarray(v.values).tobytes())
+
+
+def _snap(frame):
+    """Everything a frame reports, bit for bit."""
+    try:
+        return {'distance': _vbytes(frame.distance),
+                'time': tuple(_vbytes(sub.time) for sub in frame.subframes),
+                'wavelength': tuple(_vbytes(sub.wavelength) for sub in frame.subframes)}
+    except Exception:  # noqa: BLE001  (a frame the code under test built wrongly: judged elsewhere)
+        return None
+
+
 class Ghost:
     """What the trace knows about one Frame object."""
 
-    __slots__ = ('frame', 'pulse', 'hist', 'monotone', 'dist', 'root', 'via_prop', 'maxabs_t', 'ids')
+    __slots__ = ('frame', 'pulse', 'hist', 'monotone', 'dist', 'root', 'via_prop', 'maxabs_t', 'ids', 'snap')
 
     def __init__(self, frame, pulse, hist, monotone, dist, root, via_prop, maxabs_t, ids):
         self.frame = frame  # strong reference: id() stays unique
+        self.snap = _snap(frame)  # the bytes the frame had when it was returned (and judged)
         self.pulse = pulse
         self.hist = hist  # tuple of ChopperModel
         self.monotone = monotone
@@ -244,6 +312,7 @@ class Monitors:
         self.handed: dict[int, tuple] = {}  # id(iterable handed to FrameSequence.chop) -> (it, form, choppers)
         self.judged: set = set()  # (pulse, history, distance, polygon bytes) of frames judged already
         self.kinds: dict[int, str] = {}
+        self.in_redo = False
 
     # -- ghost helpers -------------------------------------------------------
     def g(self, frame):
@@ -488,6 +557,8 @@ class Monitors:
         """Frames reached from the same frame by propagate_to chains ending at the same
         distance are equal (1e-12 of the largest time on the way)."""
         ctx = self.ctx
+        if self.in_redo:
+            return False  # (the workload has overwritten the arrays of the frames obtained before: probe_alias)
         key = (ng.root, _hex(ng.dist))
         first = self.same_target.get(key)
         if first is None:
@@ -827,6 +898,30 @@ class Monitors:
         except Exception:  # noqa: BLE001
             ctx.oracle_error('C11 on_seq_chop')
 
+    def recheck(self, frames, after, call, fields=('distance', 'time', 'wavelength')):
+        """Frames obtained EARLIER still report, bit for bit, what they reported when they were returned
+        (and judged): called by the workload after it wrote in place into an argument of the call that
+        produced them, into the result of a later call, or into a variable it reuses between calls."""
+        ctx = self.ctx
+        for f in frames:
+            g = self.g(f)
+            if g is None or g.snap is None:
+                ctx.count('untracked_frame:recheck')
+                continue
+            now = _snap(f)
+            ctx.event('earlier_frame_rechecked')
+            bad = [k for k in fields if now is None or now[k] != g.snap[k]]
+            if bad:
+                case = _describe(g.pulse, g.hist, g.dist)
+                case.update({'program': self.program, 'after': after, 'fields_changed': bad,
+                             'distance_when_returned': repr(np.frombuffer(g.snap['distance'][3],
+                                                                          dtype=g.snap['distance'][1]).tolist()),
+                             'distance_now': None if now is None else repr(
+                                 np.frombuffer(now['distance'][3], dtype=now['distance'][1]).tolist())})
+                ctx.violation('earlier_frame_changed',
+                              f'a frame returned earlier by {call} changed ({", ".join(bad)}) after {after}',
+                              case, call=call, field=bad[0])
+
     def on_seq_propagate(self, ev):
         ctx = self.ctx
         seq = ev.args['self']
@@ -835,6 +930,7 @@ class Monitors:
             ctx.count('untracked_frame:FrameSequence.propagate_to')
             return
         case = _describe(g.pulse, g.hist, g.dist)
+        case['program'] = self.program
         if ev.exc is not None:
             ctx.violation('sequence_propagate_raised',
                           f'FrameSequence.propagate_to raised {type(ev.exc).__name__}: {ev.exc}', case,
@@ -844,24 +940,47 @@ class Monitors:
             res = ev.result
             n0 = len(seq.frames)
             ok = len(res.frames) == n0 + 1 and all(a is b for a, b in zip(seq.frames, res.frames[:n0]))
+            dd = _in(ev.args['distance'], 'm')
+            scalar = dd.ndim == 0 and np.ndim(g.dist) == 0
+            d = _scalar(ev.args['distance'], 'm')
             if ok:
                 gl = self.g(res.frames[-1])
-                d = _scalar(ev.args['distance'], 'm')
-                ok = gl is not None and gl.via_prop and gl.hist == g.hist and gl.dist == d
+                ok = gl is not None and gl.via_prop and gl.hist == g.hist and \
+                    (gl.dist == d if scalar else np.array_equal(np.atleast_1d(gl.dist), np.atleast_1d(dd)))
             ctx.event('FrameSequence.propagate_to')
+            if scalar:
+                # the place of the new distance among the frames the sequence holds (any order is allowed:
+                # behind all frames, in front of the last one, between two choppers, at an existing one)
+                held = [x.dist for x in (self.g(f) for f in seq.frames) if x is not None and np.ndim(x.dist) == 0]
+                if d < g.dist:
+                    ctx.event('FrameSequence.propagate_to:backward')
+                if any(d == x for x in held[:-1]):
+                    ctx.event('FrameSequence.propagate_to:to_the_distance_of_an_earlier_frame')
             if not ok:
                 ctx.violation('sequence_propagate_structure',
                               'FrameSequence.propagate_to did not append the last frame propagated to the distance',
                               case)
+                # the clause itself: the frame the call returns as the last one of the sequence holds the
+                # neutrons behind the choppers applied so far, at the requested distance
+                if scalar and res.frames:
+                    self.judge_frame(res.frames[-1], g.pulse, g.hist, d, 'FrameSequence.propagate_to')
         except Exception:  # noqa: BLE001
             ctx.oracle_error('C11 on_seq_propagate')
 
     def on_getitem(self, ev):
         ctx = self.ctx
         item = ev.args.get('item')
+        seq = ev.args['self']
+        if isinstance(item, int) and not isinstance(item, bool):
+            # sequence[i]: the i-th frame the sequence holds (result[-1]: the frame the last call added)
+            if ev.exc is None:
+                ctx.event('getitem:index')
+                if not (-len(seq.frames) <= item < len(seq.frames)) or ev.result is not seq.frames[item]:
+                    ctx.violation('getitem_index', f'sequence[{item}] is not the frame at that place of the sequence',
+                                  {'index': item, 'n_frames': len(seq.frames)})
+            return
         if not isinstance(item, sc.Variable):
             return
-        seq = ev.args['self']
         gs = [self.g(f) for f in seq.frames]
         if not gs or any(x is None for x in gs):
             ctx.count('untracked_frame:getitem')
@@ -869,10 +988,24 @@ class Monitors:
         try:
             d = _scalar(item, 'm')
             ds = [x.dist for x in gs]
-            if any(np.ndim(x) for x in ds) or any(b < a for a, b in zip(ds, ds[1:])) or d < ds[0]:
+            if any(np.ndim(x) for x in ds) or d < ds[0]:
                 ctx.count('getitem:unsorted_sequence_not_judged')
                 return
-            full = gs[-1].hist
+            # Any order of PROPAGATED frames is judged (backward steps, a look between two choppers, a
+            # distance that exists already): the neutrons at d went through the choppers at <= d.  That has
+            # a meaning when every chopper was added downstream of all frames the sequence held by then;
+            # a chopper placed upstream of a position the beam was already propagated to is not judged.
+            run_max = ds[0]
+            for x, dist in zip(gs[1:], ds[1:], strict=True):
+                if not x.via_prop and dist < run_max:
+                    ctx.count('getitem:chopper_upstream_of_an_earlier_frame:not_judged')
+                    return
+                run_max = max(run_max, dist)
+            non_monotonic = any(b < a for a, b in zip(ds, ds[1:], strict=False))
+            full = max(gs, key=lambda x: len(x.hist)).hist
+            if any(x.hist != full[:len(x.hist)] for x in gs):
+                ctx.count('getitem:frames_of_different_cascades:not_judged')
+                return
             if any(abs(c.distance - d) <= BAND * d for c in full):
                 ctx.count('undecided:getitem_at_chopper_distance')
                 if ev.exc is not None:
@@ -888,6 +1021,9 @@ class Monitors:
                               exc=type(ev.exc).__name__)
                 return
             ctx.event('getitem')
+            if non_monotonic:
+                ctx.event('getitem:non_monotonic_sequence')
+            case['program'] = self.program
             self.judge_frame(ev.result, gs[0].pulse, hist, d, 'getitem')
         except Exception:  # noqa: BLE001
             ctx.oracle_error('C11 on_getitem')
@@ -1716,6 +1852,561 @@ def run_mutable(cc, mon, ctx, rng, forced):
     return ('mutable', len(f4.subframes) > 0, len(seq_b2.frames[-1].subframes) > 0), False
 
 
+# ------------------------------------- non-monotonic sequences of propagate / chop / lookup ---
+def _source(cc, mon, rng):
+    u = rng.uniform
+    t0 = 0.0 if rng.random() < 0.5 else float(u(0, 1e-3))
+    dur, l0, band = float(u(1e-4, 5e-3)), float(u(0.5, 8.0)), float(u(1.0, 10.0))
+    tu = T_UNITS[int(rng.integers(0, 3))]
+    lu = L_UNITS[int(rng.integers(0, 2))]
+    args = [_var(t0, tu, 's'), _var(t0 + dur, tu, 's'), _var(l0 * 1e-10, lu, 'm'), _var((l0 + band) * 1e-10, lu, 'm')]
+    mon.program.append(['from_source_pulse', [repr(a.value) + ' ' + str(a.unit) for a in args]])
+    return cc.FrameSequence.from_source_pulse(*args), args, (t0, t0 + dur + 0.04 * (l0 + band))
+
+
+def _bounds_of(frame):
+    for fn in (frame.bounds, frame.subbounds):
+        try:
+            fn()
+        except Exception:  # noqa: BLE001,S110  (judged by the monitors)
+            pass
+
+
+def _cascade(cc, mon, ctx, rng, seq0, fb, n_ch, unit, classes, gap=(3.0, 25.0)):
+    """n_ch choppers, each further on by ``gap`` metres, first window of the given class (built from the
+    vertex times observed at the chopper position); applied one by one with Frame.chop."""
+    cur = seq0.frames[0]
+    d = 0.0
+    choppers, frames = [], []
+    for k in range(n_ch):
+        d += float(rng.uniform(*gap))
+        dv = _var(d, unit, 'm')
+        o, c, _ = make_windows(rng, ctx, cur.propagate_to(dv.copy()), fb, classes[k % len(classes)])
+        ch = cc.Chopper(distance=dv, time_open=_arr(o), time_close=_arr(c))
+        mon.program.append(['chop', repr(dv.value) + ' ' + str(dv.unit), [repr(x) for x in o], [repr(x) for x in c]])
+        cur = cur.chop(ch)
+        choppers.append(ch)
+        frames.append(cur)
+    return choppers, frames
+
+
+def run_nonmonotone(cc, mon, ctx, rng, forced):
+    """'Any sequence of chop / propagate calls': the distances of FrameSequence.propagate_to / chop /
+    sequence[distance] calls in NON-MONOTONIC order -- to the detector and then back to a monitor in front of
+    it, to a position between two choppers that were applied already, to a distance at which the sequence
+    holds a frame already (a chopper, the source), continuing from such sequences with propagate_to, chop
+    and lookups.  Every frame a call returns (the last one of the sequence; the one a lookup yields) is
+    judged by the simulator with the choppers at <= that distance."""
+    prog = mon.program
+    u = rng.uniform
+    seq0, _, fb = _source(cc, mon, rng)
+    if mon.g(seq0.frames[0]) is None:
+        return None
+    n_ch = 2 + int(rng.integers(0, 2))
+    unit = 'm' if rng.random() < 0.6 else D_UNITS[int(rng.integers(0, 3))]
+    classes = [['cuts_both', 'contains', 'cuts_high'], ['cuts_low', 'cuts_both', 'contains'],
+               ['contains', 'cuts_high', 'cuts_both']][int(rng.integers(0, 3))]
+    choppers, _ = _cascade(cc, mon, ctx, rng, seq0, fb, n_ch, unit, classes)
+    ds = [float(_scalar(c.distance, 'm')) for c in choppers]
+    seq = seq0.chop(list(choppers))
+
+    def dvar(x):
+        # (metres: sequence[distance] compares the distances of the frames with the requested one in m)
+        return _dist_var(rng, x, 'm')
+
+    def look(s, q):
+        prog.append(['sequence[distance]', repr(q)])
+        try:
+            return s[_dist_var(rng, q)]
+        except Exception:  # noqa: BLE001  judged by the monitor
+            return None
+
+    def step(s, x, what):
+        dv = x if isinstance(x, sc.Variable) else dvar(x)
+        prog.append(['FrameSequence.propagate_to (' + what + ')', repr(dv.value) + ' ' + str(dv.unit)])
+        out = s.propagate_to(dv)
+        _bounds_of(out[-1])
+        return out
+
+    # (A) to the detector, then back to a monitor in front of it; one step to the monitor
+    far = ds[-1] + float(u(5.0, 40.0))
+    near = float(u(ds[-1] + 0.5, far - 0.5))
+    near_v = dvar(near)
+    s_far = step(seq, far, 'detector')
+    s1 = step(s_far, near_v.copy(), 'back to a monitor')
+    step(seq, near_v.copy(), 'monitor in one step')
+    ctx.hit('sequence:backward_second_step')
+    for q in (u(near + 0.01, far - 0.01), far + u(0.5, 10.0), u(ds[-1] + 0.01, near - 0.01),
+              u(ds[0] + 0.02, ds[1] - 0.02), u(0.01, ds[0] - 0.02)):
+        look(s1, float(q))
+    s1[near_v.copy()]
+    ctx.hit('sequence:lookup_after_backward_step')
+    # (B) continuing from there: forward again (to a distance that exists / a new one), one more chopper
+    step(s1, s_far[-1].distance.copy(), 'forward again, to the distance of an earlier frame')
+    s1c = step(s1, far + float(u(0.5, 10.0)), 'forward again')
+    look(s1c, float(u(near + 0.01, far - 0.01)))
+    ctx.hit('sequence:continue_after_backward_step')
+    d4 = far + float(u(11.0, 30.0))
+    dv4 = _var(d4, unit, 'm')
+    o, c, _ = make_windows(rng, ctx, s1[-1].propagate_to(dv4.copy()), fb, 'cuts_both')
+    ch4 = cc.Chopper(distance=dv4, time_open=_arr(o), time_close=_arr(c))
+    prog.append(['FrameSequence.chop after a backward step', repr(dv4.value) + ' ' + str(dv4.unit),
+                 [repr(x) for x in o], [repr(x) for x in c]])
+    s1d = s1.chop([ch4])
+    _bounds_of(s1d[-1])
+    for q in (u(far + 0.01, d4 - 0.01), d4 + u(0.5, 10.0), u(near + 0.01, far - 0.01)):
+        look(s1d, float(q))
+    ctx.hit('sequence:chop_after_backward_step')
+    # (C) a look at the beam between two choppers that were both applied
+    k = int(rng.integers(0, n_ch - 1))
+    mid = float(u(ds[k] + 0.5, ds[k + 1] - 0.5))
+    mid_v = dvar(mid)
+    s2 = step(seq, mid_v.copy(), 'between two choppers')
+    s2[mid_v.copy()]
+    for q in (u(ds[k] + 0.01, mid - 0.01), u(mid + 0.01, ds[k + 1] - 0.01), ds[-1] + u(0.5, 10.0)):
+        look(s2, float(q))
+    s2b = step(s2, ds[-1] + float(u(0.5, 30.0)), 'on to the detector')
+    look(s2b, float(u(mid + 0.01, ds[k + 1] - 0.01)))
+    ctx.hit('sequence:propagate_between_choppers')
+    # (D) to a distance at which the sequence holds a frame already: a chopper that is not the last one,
+    # the last one, the source
+    j = int(rng.integers(0, n_ch - 1))
+    s3 = step(seq, seq[1 + j].distance.copy(), 'to the distance of an earlier chopper')
+    for q in (ds[j] * (1.0 + 10.0 ** float(u(-7.0, -3.0))), u(ds[j] + 0.01, ds[j + 1] - 0.01),
+              ds[-1] + u(0.5, 10.0)):
+        look(s3, float(q))
+    s4 = step(seq, seq[-1].distance.copy(), 'to the distance of the last chopper')
+    look(s4, ds[-1] + float(u(0.5, 10.0)))
+    s5 = step(seq, sc.scalar(0.0, unit='m'), 'to the distance of the source')
+    for q in (u(0.01, ds[0] - 0.02), u(ds[0] + 0.02, ds[1] - 0.02), ds[-1] + u(0.5, 10.0)):
+        look(s5, float(q))
+    s5[sc.scalar(0.0, unit='m')]
+    ctx.hit('sequence:propagate_to_existing_distance')
+    for s in (s1, s2, s3, s5):
+        s[-1]
+        s[len(s) - 1]
+    seq[0]
+    return ('non_monotonic', n_ch, unit, tuple(classes), len(seq[-1].subframes) > 0), False
+
+
+# ------------------------------------------- aliasing of results and arguments (write and check) ---
+def _poke(v, arr):
+    if v.ndim == 0:
+        v.value = np.asarray(arr).reshape(()).item()
+    else:
+        v.values = arr
+
+
+def _frame_items(frame):
+    out = [('distance', frame.distance)]
+    for sub in frame.subframes:
+        out.append(('time', sub.time))
+        out.append(('wavelength', sub.wavelength))
+    return out
+
+
+_PROPAGATE_CALLS = ('Frame.propagate_to', 'FrameSequence.propagate_to', 'sequence[distance]')
+_CHOP_CALLS = ('Frame.chop', 'FrameSequence.chop')
+
+
+def probe_alias(mon, ctx, call, before, new_frames, args, inputs=(), redo=None):
+    """After ``call`` returned ``new_frames``: write in place into every array of the result, into every
+    argument Variable (``args``: name -> Variable) and into every array of the frames that were arguments
+    (``inputs``), one at a time, and look which OTHER arrays (of all frames the trace has seen in this
+    cascade, of the arguments) changed with it; the written array is restored each time.  Sharing that
+    involves the result is a violation (``before``: the frames the trace knew before the call -- frames the
+    call made on the way and did not return are nobody's), except the documented pass-through of the data classes, which is
+    counted: Frame.propagate_to stores the distance Variable it is given and passes the wavelength Variable
+    of each subframe on (only times are sheared); the frame chop returns carries the chopper's distance
+    Variable when no unit conversion is needed.  Then the arrays of the result that are its own are left
+    overwritten, the call is repeated with the very same arguments and must give the original result."""
+    try:
+        new_ids = {id(f) for f in new_frames}
+        in_ids = {id(f) for f in inputs}
+        uni = []  # (owner, field, Variable)
+        for i, f in enumerate(new_frames):
+            uni += [(('new', i), fld, v) for fld, v in _frame_items(f)]
+        for gid, g in mon.ghost.items():
+            if gid not in new_ids and gid in before:
+                uni += [(('input' if gid in in_ids else 'old', gid), fld, v) for fld, v in _frame_items(g.frame)]
+        for name, v in args.items():
+            uni.append((('arg', name), name, v))
+        views = [np.asarray(v.values) for _, _, v in uni]  # live views of the buffers
+        base = [a.copy() for a in views]
+
+        owner_of = np.repeat(np.arange(len(views)), [a.size for a in views])
+        flat = lambda: np.concatenate([a.ravel().astype(np.float64) for a in views])  # noqa: E731
+        flat0 = flat()
+
+        def differing(skip=-1):
+            return {int(j) for j in np.unique(owner_of[flat() != flat0]) if j != skip}
+
+        targets = [i for i, (o, _, _) in enumerate(uni) if o[0] in ('new', 'arg', 'input')]
+        changed = {}
+        for ti in targets:
+            v = uni[ti][2]
+            try:
+                _poke(v, base[ti] + 1)
+            except Exception:  # noqa: BLE001  (a read-only variable: nothing can be written through it)
+                ctx.count('alias_probe:array_not_writable')
+                continue
+            hit = np.array_equal(np.asarray(v.values), base[ti] + 1)
+            now = differing(skip=ti)
+            _poke(v, base[ti])
+            if not hit:
+                ctx.count('alias_probe:write_without_effect')
+                continue
+            changed[ti] = now
+        if differing():
+            ctx.inconclusive_because('alias probe could not restore the arrays it wrote to')
+            return
+        ctx.event('alias_probe:' + call)
+        ctx.count('alias_probe:arrays_written', len(changed))
+        # groups of arrays that share memory, seen from the result
+        pairs = set()
+        for ti, ch in changed.items():
+            for j in ch:
+                a, b = uni[ti], uni[j]
+                if a[0][0] == 'new' or b[0][0] == 'new':
+                    pairs.add((ti, j) if a[0][0] == 'new' else (j, ti))
+
+        def partners(i):
+            return {j for (a, j) in pairs if a == i} | {a for (a, j) in pairs if j == i}
+
+        for i, j in sorted(pairs):
+            (own_i, fld_i, _), (own_j, fld_j, _) = uni[i], uni[j]
+            if own_j[0] == 'new' and j < i and (j, i) in pairs:
+                continue  # both arrays belong to the result: reported once
+            with_what = ('argument:' + ('chopper.' + fld_j.split('.')[-1] if fld_j.startswith('chopper') else fld_j)
+                         if own_j[0] == 'arg' else
+                         'frame_the_call_started_from.' + fld_j if own_j[0] == 'input' else
+                         'earlier_frame.' + fld_j if own_j[0] == 'old' else
+                         ('another_frame_of_the_result.' if own_j != own_i else 'another_array_of_the_same_frame.')
+                         + fld_j)
+            known = None
+            if call in _PROPAGATE_CALLS and fld_i == 'wavelength' and fld_j == 'wavelength' \
+                    and own_j[0] in ('input', 'old'):
+                known = 'propagated_frame_passes_the_wavelength_variable_on'
+            elif call in _PROPAGATE_CALLS[:2] and fld_i == 'distance':
+                arg_shared = any(uni[x][0] == ('arg', 'distance') for x in partners(i))
+                if arg_shared and (own_j[0] == 'arg' or fld_j == 'distance'):
+                    known = 'propagated_frame_stores_the_distance_variable_it_is_given'
+            elif call in _CHOP_CALLS and fld_i == 'distance':
+                arg_shared = any(uni[x][0][0] == 'arg' and uni[x][1].endswith('.distance') for x in partners(i))
+                if arg_shared and ((own_j[0] == 'arg' and fld_j.endswith('.distance')) or fld_j == 'distance'):
+                    known = 'chopped_frame_carries_the_distance_variable_of_the_chopper'
+            if known:
+                ctx.count('observed:shared_memory:' + known)
+                continue
+            f = new_frames[own_i[1]]
+            g = mon.g(f)
+            case = _describe(g.pulse, g.hist, g.dist) if g else {}
+            case.update({'program': mon.program, 'call': call, 'result_array': fld_i, 'shares_memory_with': with_what,
+                         'frame_of_the_result': own_i[1], 'other_frame': (
+                             _describe(mon.ghost[own_j[1]].pulse, mon.ghost[own_j[1]].hist, mon.ghost[own_j[1]].dist)
+                             if own_j[0] in ('old', 'input') else None),
+                         'other_frame_made_by': (('propagate_to' if mon.ghost[own_j[1]].via_prop else 'chop / source')
+                                                 if own_j[0] in ('old', 'input') else None)})
+            ctx.violation('result_shares_memory',
+                          f'{call}: the {fld_i} array of the returned frame shares memory with {with_what}: an '
+                          'in-place write to one changes the other', case, call=call, field=fld_i,
+                          shares_with=with_what.split('.')[0])
+        if redo is None:
+            return
+        # arrays the result owns alone are overwritten and left so while the call is repeated
+        own = [ti for ti in targets if uni[ti][0][0] == 'new' and ti in changed and not changed[ti]]
+        want = [_snap(f) for f in new_frames]
+        saved = {ti: base[ti] for ti in own}
+        for ti in own:
+            _poke(uni[ti][2], saved[ti] + 1)
+        mon.in_redo = True
+        try:
+            again = redo()
+        finally:
+            mon.in_redo = False
+            for ti in own:
+                _poke(uni[ti][2], saved[ti])
+        ctx.event('repeated_call_after_overwriting_the_result')
+        got = [_snap(f) for f in again]
+        if got != want:
+            g = mon.g(new_frames[-1])
+            case = _describe(g.pulse, g.hist, g.dist) if g else {}
+            case.update({'program': mon.program, 'call': call})
+            ctx.violation('repeated_call_differs',
+                          f'{call} repeated on the very same arguments, after the caller overwrote the arrays of the '
+                          'first result, does not give the first result again', case, call=call)
+    except Exception:  # noqa: BLE001
+        ctx.oracle_error('C11 probe_alias ' + call)
+
+
+_FRESH_PROGRAM = r"""
+def program(cc, sc, np, p):
+    f = float.fromhex
+
+    def dump(frame):
+        return {"distance": [float(x).hex() for x in np.atleast_1d(frame.distance.values)],
+                "unit": str(frame.distance.unit),
+                "subframes": [[[float(x).hex() for x in s.time.values.ravel()],
+                               [float(x).hex() for x in s.wavelength.values.ravel()]] for s in frame.subframes]}
+
+    def group(dg):
+        return {k: [float(x).hex() for x in dg[k].values.ravel()] for k in ("time", "wavelength")}
+
+    def chopper(c):
+        return cc.Chopper(distance=sc.scalar(f(c["d"]), unit=c["unit"]),
+                          time_open=sc.array(dims=["slit"], values=[f(x) for x in c["open"]], unit="s"),
+                          time_close=sc.array(dims=["slit"], values=[f(x) for x in c["close"]], unit="s"))
+
+    out = {}
+    first = p["first"]
+    if first == "propagate_times":
+        out["first"] = [float(x).hex() for x in cc.propagate_times(
+            sc.array(dims=["vertex"], values=[f(x) for x in p["pt"][0]], unit="s"),
+            sc.array(dims=["vertex"], values=[f(x) for x in p["pt"][1]], unit="angstrom"),
+            sc.scalar(f(p["pt"][2]), unit="m")).values]
+    elif first == "Frame.chop":
+        fr = cc.Frame(distance=sc.scalar(0.0, unit="m"), subframes=[cc.Subframe(
+            time=sc.array(dims=["vertex"], values=[f(x) for x in p["pt"][0]], unit="s"),
+            wavelength=sc.array(dims=["vertex"], values=[f(x) for x in p["pt"][1]], unit="angstrom"))])
+        out["first"] = dump(fr.chop(chopper(p["choppers"][0])))
+    seq = cc.FrameSequence.from_source_pulse(*[sc.scalar(f(v), unit=u) for v, u in p["pulse"]])
+    seq = seq.chop([chopper(c) for c in p["choppers"]])
+    out["frames"] = [dump(x) for x in seq.frames]
+    seq = seq.propagate_to(sc.scalar(f(p["detector"]), unit="m"))
+    out["detector"] = dump(seq[-1])
+    out["lookup"] = dump(seq[sc.scalar(f(p["lookup"]), unit="m")])
+    out["bounds"] = group(seq[-1].bounds())
+    out["subbounds"] = group(seq[-1].subbounds())
+    return out
+"""
+_FRESH_SCRIPT = ('import json, sys\nimport numpy as np\nimport scipp as sc\nprint("READY", flush=True)\n'
+                 'from scippneutron.tof import chopper_cascade as cc\n' + _FRESH_PROGRAM
+                 + '\nprint("RESULT " + json.dumps(program(cc, sc, np, json.loads(sys.argv[1]))), flush=True)\n')
+FRESH_FIRST_CALLS = ('from_source_pulse', 'propagate_times', 'Frame.chop')
+
+
+def run_fresh_interpreter(cc, mon, ctx, rng, which):
+    """The first call of an entry point in a fresh interpreter that imported nothing but scipp, numpy and the
+    module of the entry point gives, bit for bit, what the same calls give in this (long-running, fully
+    imported) process, where the monitors judge them."""
+    import json
+    import os
+    import subprocess
+    import sys
+    u = rng.uniform
+    hx = lambda x: float(x).hex()  # noqa: E731
+    t0, dur, l0, band = float(u(0, 1e-3)), float(u(5e-4, 4e-3)), float(u(0.5, 6.0)), float(u(2.0, 10.0))
+    pulse = [(hx(t0), 's'), (hx(t0 + dur), 's'), (hx(l0), 'angstrom'), (hx(l0 + band), 'angstrom')]
+    a = float(ts.alpha())
+    d1, d2 = float(u(4.0, 12.0)), float(u(15.0, 30.0))
+    c1 = {'d': hx(d1), 'unit': 'm', 'open': [hx(t0 + a * d1 * (l0 + 0.2 * band))],
+          'close': [hx(t0 + dur + a * d1 * (l0 + 0.8 * band))]}
+    c2 = {'d': hx(d2), 'unit': 'm', 'open': [hx(t0 + a * d2 * (l0 + 0.3 * band))],
+          'close': [hx(t0 + dur / 2 + a * d2 * (l0 + 0.6 * band))]}
+    rect_t = [hx(t0), hx(t0 + dur), hx(t0 + dur), hx(t0)]
+    rect_w = [hx(l0), hx(l0), hx(l0 + band), hx(l0 + band)]
+    p = {'first': which, 'pulse': pulse, 'choppers': [c1, c2], 'detector': hx(d2 + float(u(5.0, 40.0))),
+         'lookup': hx(float(u(d1 + 0.5, d2 - 0.5))), 'pt': [rect_t, rect_w, hx(d1)]}
+    mon.program.append(['fresh interpreter', p])
+    env = dict(os.environ)
+    env['PYTHONPATH'] = os.pathsep.join(x for x in sys.path if x)
+    try:
+        r = subprocess.run([sys.executable, '-c', _FRESH_SCRIPT, json.dumps(p)], env=env,  # noqa: S603
+                           capture_output=True, text=True, timeout=300, check=False)
+    except Exception:  # noqa: BLE001
+        ctx.oracle_error('C11 fresh interpreter could not be started')
+        return
+    if 'READY' not in r.stdout:
+        ctx.inconclusive_because('fresh interpreter could not import scipp / numpy: ' + r.stderr[-400:])
+        return
+    # the same program in this process (judged by the monitors on the way)
+    ns = {}
+    exec(compile(_FRESH_PROGRAM, '<C11 fresh-interpreter program>', 'exec'), ns)  # noqa: S102
+    here = ns['program'](cc, sc, np, p)
+    ctx.event('fresh_interpreter:' + which)
+    line = [x for x in r.stdout.splitlines() if x.startswith('RESULT ')]
+    if r.returncode != 0 or not line:
+        ctx.violation('fresh_interpreter_failed',
+                      f'first call ({which}) in an interpreter that imported only scipp, numpy and '
+                      f'scippneutron.tof.chopper_cascade failed: {r.stderr.strip().splitlines()[-1:]}',
+                      {'program': p, 'stderr': r.stderr[-1500:]}, first=which)
+        return
+    there = json.loads(line[0][len('RESULT '):])
+    if there != here:
+        diff = [k for k in here if there.get(k) != here[k]]
+        ctx.violation('fresh_interpreter_differs',
+                      f'first call in a fresh interpreter differs from the call in the worker process in {diff}',
+                      {'program': p, 'fresh': {k: there.get(k) for k in diff}, 'worker': {k: here[k] for k in diff}},
+                      first=which)
+
+
+def run_alias(cc, mon, ctx, rng, forced):
+    """Axes 'aliasing of result and arguments' and 'in-place modification between two calls' on every entry
+    point that returns a frame: after each call the arrays of the result, of the arguments and of the frame
+    the call started from are written in place (and restored) and all frames obtained so far are looked at
+    again; distance Variables, chopper fields and pulse arguments are advanced in place (``pos += step``)
+    between two calls with the very same objects; operand sizes that coincide with internal sizes."""
+    prog = mon.program
+    u = rng.uniform
+    seq0, pargs, fb = _source(cc, mon, rng)
+    src = seq0.frames[0]
+    if mon.g(src) is None:
+        return None
+    probe_alias(mon, ctx, 'from_source_pulse', set(), [src],
+                dict(zip(('time_min', 'time_max', 'wavelength_min', 'wavelength_max'), pargs, strict=True)),
+                redo=lambda: [cc.FrameSequence.from_source_pulse(*pargs).frames[0]])
+    unit = ('m', 'm', 'mm', 'cm')[int(forced.get('variant', 0)) % 4]
+    # windows of every class; the second chopper has a window that contains a whole subframe
+    classes = [['cuts_both', 'contains', 'cuts_high'], ['cuts_low', 'contains', 'touches_vertex'],
+               ['cuts_high', 'contains', 'misses'], ['contains', 'cuts_both', 'cuts_low']][int(forced.get('variant', 0)) % 4]
+    cur = src
+    d = 0.0
+    choppers = []
+    held = [src]
+    for k in range(3):
+        d += float(u(3.0, 25.0))
+        if k == 1:
+            # Frame.propagate_to (to in front of the chopper)
+            dp = _dist_var(rng, d - float(u(0.5, 2.0)))
+            prog.append(['propagate_to', repr(dp.value) + ' ' + str(dp.unit)])
+            mark = set(mon.ghost)
+            nxt = cur.propagate_to(dp)
+            probe_alias(mon, ctx, 'Frame.propagate_to', mark, [nxt], {'distance': dp}, inputs=[cur],
+                        redo=lambda cur=cur, dp=dp: [cur.propagate_to(dp)])
+            held.append(nxt)
+            cur = nxt
+        dv = _var(d, unit, 'm')
+        o, c, cl = make_windows(rng, ctx, cur.propagate_to(dv.copy()), fb, classes[k])
+        ch = cc.Chopper(distance=dv, time_open=_arr(o), time_close=_arr(c))
+        prog.append(['chop', repr(dv.value) + ' ' + str(dv.unit), [repr(x) for x in o], [repr(x) for x in c], cl])
+        mark = set(mon.ghost)
+        nxt = cur.chop(ch)
+        probe_alias(mon, ctx, 'Frame.chop', mark, [nxt],
+                    {'chopper.distance': ch.distance, 'chopper.time_open': ch.time_open,
+                     'chopper.time_close': ch.time_close}, inputs=[cur],
+                    redo=lambda cur=cur, ch=ch: [cur.chop(ch)])
+        _bounds_of(nxt)
+        held.append(nxt)
+        choppers.append(ch)
+        cur = nxt
+    ctx.hit('alias:frame_calls_probed')
+    # the same through the sequence
+    mark = set(mon.ghost)
+    clist = list(choppers)  # (the very same list object is handed in again after a chopper was moved in place)
+    seq = seq0.chop(clist)
+    n0 = len(seq0.frames)
+    cargs = {}
+    for i, ch in enumerate(choppers):
+        cargs.update({f'chopper{i}.distance': ch.distance, f'chopper{i}.time_open': ch.time_open,
+                      f'chopper{i}.time_close': ch.time_close})
+    probe_alias(mon, ctx, 'FrameSequence.chop', mark, seq.frames[n0:], cargs, inputs=seq0.frames,
+                redo=lambda: seq0.chop(list(choppers)).frames[n0:])
+    held += seq.frames[n0:]
+    det = _dist_var(rng, d + float(u(2.0, 30.0)), 'm')
+    prog.append(['FrameSequence.propagate_to', repr(det.value) + ' ' + str(det.unit)])
+    mark = set(mon.ghost)
+    seq_d = seq.propagate_to(det)
+    probe_alias(mon, ctx, 'FrameSequence.propagate_to', mark, [seq_d[-1]], {'distance': det}, inputs=[seq[-1]],
+                redo=lambda: [seq.propagate_to(det)[-1]])
+    held.append(seq_d[-1])
+    ds = [float(_scalar(ch.distance, 'm')) for ch in choppers]
+    for lu in ('m', 'mm'):
+        q = _var(float(u(ds[1] + 0.02, ds[2] - 0.02)), lu, 'm')
+        prog.append(['sequence[distance]', repr(q.value) + ' ' + str(q.unit)])
+        mark = set(mon.ghost)
+        fr = seq_d[q]
+        probe_alias(mon, ctx, 'sequence[distance]', mark, [fr], {'distance': q}, inputs=seq_d.frames,
+                    redo=lambda q=q: [seq_d[q]])
+        held.append(fr)
+    ctx.hit('alias:sequence_calls_probed')
+    mon.recheck(held, 'writing into and restoring results and arguments', 'the calls of the cascade')
+    # the groups bounds() / subbounds() return are the caller's: writing into them leaves the frames alone
+    for fr in (src, cur, seq_d[-1]):
+        for fn in (fr.bounds, fr.subbounds):
+            try:
+                dg = fn()
+            except Exception:  # noqa: BLE001  (judged by the monitors)
+                continue
+            for name in ('time', 'wavelength'):
+                _poke(dg[name], np.asarray(dg[name].values) + 1)
+        mon.recheck([fr], 'the caller wrote into the groups bounds() and subbounds() returned', 'Frame.bounds')
+    ctx.hit('alias:bounds_results_written')
+
+    # ---- in-place modification between two calls with the very same objects -----------------------
+    # a scan along the beam line: one position variable, advanced in place, looked up each time
+    for pos, st in ((sc.scalar(float(u(ds[0] + 0.05, ds[0] + 0.5)), unit='m'), sc.scalar(float(u(0.1, 0.5)), unit='m')),
+                    (sc.scalar(int(np.ceil(ds[2])) + 1, unit='m'), sc.scalar(2, unit='m')),
+                    (_var(float(u(ds[1] + 0.05, ds[1] + 0.5)), 'mm', 'm'), sc.scalar(float(u(100.0, 500.0)), unit='mm'))):
+        got = []
+        for _ in range(3):
+            prog.append(['scan: sequence[pos]; pos += step', repr(pos.value) + ' ' + str(pos.unit)])
+            got.append(seq_d[pos])
+            pos += st
+            mon.recheck(got, 'the caller advanced its position variable in place (pos += step)', 'sequence[distance]')
+        held += got
+    ctx.hit('inplace:lookup_distance_advanced')
+    # Frame.propagate_to / FrameSequence.propagate_to with one distance variable advanced in place: each
+    # call is judged (by the monitors) for the contents at that call; the polygons of earlier results stay
+    pos, st = sc.scalar(d + float(u(0.5, 5.0)), unit='m'), sc.scalar(float(u(0.5, 5.0)), unit='m')
+    got = []
+    for k in range(4):
+        prog.append(['scan: propagate_to(pos); pos += step', repr(pos.value)])
+        got.append(cur.propagate_to(pos) if k % 2 == 0 else seq.propagate_to(pos)[-1])
+        pos += st
+        mon.recheck(got, 'the caller advanced the distance variable in place', 'propagate_to',
+                    fields=('time', 'wavelength'))
+    ctx.hit('inplace:propagate_distance_advanced')
+    # a chopper moved and re-timed in place, applied again to the same frame
+    base = held[1 if len(held) > 1 else 0]
+    ch = choppers[0]
+    got = [base.chop(ch)] if float(_scalar(base.distance, 'm')) <= ds[0] else []
+    start = src
+    got.append(start.chop(ch))
+    for _ in range(2):
+        shift = float(u(0.2, 2.0))
+        ch.distance += _var(shift, unit, 'm')
+        dt = sc.scalar(shift * float(ts.alpha()) * float(u(1.0, 8.0)), unit='s')
+        ch.time_open += dt
+        ch.time_close += dt
+        prog.append(['chopper.distance += ...; time_open += ...; time_close += ...; chop',
+                     repr(ch.distance.value) + ' ' + str(ch.distance.unit),
+                     [repr(float(x)) for x in ch.time_open.values], [repr(float(x)) for x in ch.time_close.values]])
+        got.append(start.chop(ch))
+        mon.recheck(got, 'the caller moved and re-timed the chopper in place', 'Frame.chop',
+                    fields=('time', 'wavelength'))
+    s_again = seq0.chop(clist)
+    _bounds_of(s_again[-1])
+    ctx.hit('inplace:chopper_fields_advanced')
+    # the pulse arguments changed in place, from_source_pulse called again with the same objects
+    first = [src]
+    pargs[1] += (pargs[1] - pargs[0]) * 0.5
+    pargs[3] += sc.scalar(1.0, unit=pargs[3].unit, dtype=pargs[3].dtype) * float(u(0.1, 2.0))
+    prog.append(['pulse arguments changed in place; from_source_pulse', [repr(a.value) for a in pargs]])
+    seq_n = cc.FrameSequence.from_source_pulse(*pargs)
+    mon.recheck(first, 'the caller changed the pulse arguments in place', 'from_source_pulse')
+    if mon.g(seq_n.frames[0]) is not None:
+        seq_n.chop(list(choppers[1:]))[sc.scalar(ds[2] + float(u(3.0, 20.0)), unit='m')]
+    ctx.hit('inplace:pulse_arguments_changed')
+
+    # ---- operand sizes that coincide with sizes used internally ---------------------------------------
+    # a range of N distances with N = number of vertices of a subframe (the 'vertex' axis of the very
+    # arrays that are broadcast against the distances), one below, one above, 2 (the 'bound' axis), 1
+    fr = seq_d[-2]
+    nv = len(fr.subframes[0].time.values) if fr.subframes else 4
+    d_last = float(_scalar(fr.distance, 'm'))
+    for n in sorted({1, 2, nv - 1, nv, nv + 1}):
+        if n < 1:
+            continue
+        xs = sorted(float(x) for x in u(d_last + 0.5, d_last + 60.0, size=n))
+        prog.append(['propagate_to range', n, [repr(x) for x in xs]])
+        _bounds_of(fr.propagate_to(sc.array(dims=['distance'], values=xs, unit='m')))
+    ctx.hit('size:distance_range_as_long_as_the_vertex_axis')
+    if forced.get('fresh'):
+        run_fresh_interpreter(cc, mon, ctx, rng, forced['fresh'])
+        ctx.hit('fresh_interpreter')
+    return ('alias', unit, tuple(classes), len(cur.subframes) > 0), False
+
+
 # -------------------------------------------------------------------- driver ---
 def plan(tier, seed):
     n = 24 if tier == 'quick' else 625
@@ -1730,12 +2421,23 @@ def requirements(tier):
           'chop_frame_distance': 300, 'chop_vertices_on_propagated_frame': 300,
           'FrameSequence.chop:sequence': 50, 'FrameSequence.chop:reiterable': 30, 'FrameSequence.chop:one_shot': 150,
           'permutation:iterable_forms': 200, 'call_sequence': 50,
-          'transmission_along_line:mono': 50, 'transmission_along_line:instant': 50, 'transmission_at_point': 50}
+          'transmission_along_line:mono': 50, 'transmission_along_line:instant': 50, 'transmission_at_point': 50,
+          'FrameSequence.propagate_to:backward': 30, 'FrameSequence.propagate_to:to_the_distance_of_an_earlier_frame': 30,
+          'getitem:non_monotonic_sequence': 150, 'getitem:index': 100,
+          'alias_probe:from_source_pulse': 16, 'alias_probe:Frame.propagate_to': 16, 'alias_probe:Frame.chop': 48,
+          'alias_probe:FrameSequence.chop': 16, 'alias_probe:FrameSequence.propagate_to': 16,
+          'alias_probe:sequence[distance]': 32, 'earlier_frame_rechecked': 300,
+          'repeated_call_after_overwriting_the_result': 100,
+          **{'fresh_interpreter:' + w: 1 for w in FRESH_FIRST_CALLS}}
     return {'events': ev, 'forced': FORCED,
             'counters': {'neutrons_decided': 200000, 'neutrons_decided_transmitted': 5000,
                          'observed:cut_through_constant_wavelength_edge': 50,
                          'neutrons_decided:degenerate_pulse': 20000,
-                         'neutrons_decided_transmitted:degenerate_pulse': 1000}}
+                         'neutrons_decided_transmitted:degenerate_pulse': 1000,
+                         'alias_probe:arrays_written': 1000,
+                         'observed:shared_memory:propagated_frame_passes_the_wavelength_variable_on': 16,
+                         'observed:shared_memory:propagated_frame_stores_the_distance_variable_it_is_given': 16,
+                         'observed:shared_memory:chopped_frame_carries_the_distance_variable_of_the_chopper': 8}}
 
 
 # forced structure of the first cascades of every shard (so that every class is reached in every run)
@@ -1771,6 +2473,11 @@ _FORCED_PLAN = [
      'windows': ['cuts_low', 'contains', 'cuts_both']},
     {'n_choppers': 3, 'pulse_slot': 2, 'modes': ['source', 'forward', 'forward'],
      'windows': ['cuts_low', 'touches_vertex', 'zero_width']},
+    # FrameSequence.propagate_to / chop / sequence[distance] with distances in non-monotonic order
+    {'nonmonotone': True},
+    # aliasing of results and arguments, in-place modification between two calls, coinciding sizes, first
+    # call in a fresh interpreter
+    {'alias': True},
 ]
 
 
@@ -1794,12 +2501,25 @@ def run(shard, ctx):
     tr.watch(cc.FrameSequence.propagate_to, 'FrameSequence.propagate_to', on_return=mon.on_seq_propagate)
     tr.watch(cc.FrameSequence.__getitem__, 'FrameSequence.__getitem__', on_return=mon.on_getitem)
     with tr:
+        only = os.environ.get('RV_C11_ONLY')  # (debugging aid: run the cascades with these indices only)
         for k in range(shard['cascades']):
+            if only and str(k) not in only.split(','):
+                continue
             rng = np.random.Generator(np.random.PCG64([shard['seed'], shard['index'], k]))
             mon.reset(rng)
             forced = dict(_FORCED_PLAN[k]) if k < len(_FORCED_PLAN) else {}
             if k >= len(_FORCED_PLAN) and k % 25 == 24:
                 forced = {'mutable': True}  # (thorough tier: every 25th cascade)
+            if k >= 25 and k % 25 == 23:
+                forced = {'nonmonotone': True}
+            if k >= 25 and k % 25 == 22:
+                forced = {'alias': True}
+            if forced.get('alias'):
+                forced['variant'] = int(shard['seed']) + int(shard['index']) + k
+                if k < len(_FORCED_PLAN) and int(shard['index']) < 4:
+                    # (a handful of fresh interpreters per run; shard 0 is one of them)
+                    forced['fresh'] = FRESH_FIRST_CALLS[(int(shard['seed']) + int(shard['index']))
+                                                        % len(FRESH_FIRST_CALLS)]
             if forced.get('close'):
                 forced['ladder'] = int(shard['seed']) + 3 * int(shard['index']) + 7 * k
             if 'pulse_slot' in forced:
@@ -1808,7 +2528,8 @@ def run(shard, ctx):
             before = ctx.n_violations
             out = None
             try:
-                out = (run_mutable if forced.get('mutable') else run_cascade)(cc, mon, ctx, rng, forced)
+                out = (run_mutable if forced.get('mutable') else run_nonmonotone if forced.get('nonmonotone')
+                       else run_alias if forced.get('alias') else run_cascade)(cc, mon, ctx, rng, forced)
             except Exception as e:  # noqa: BLE001
                 # exceptions of the code under test were already judged by the monitor of the call
                 # that raised (PY_UNWIND); anything else is a harness problem
